@@ -356,6 +356,11 @@ func (Prop) Gen(seed int64, tier string) *harness.Case {
 			op.Name = names[r.Intn(len(names))]
 			op.Val = r.Intn(nScopes)
 			op.Iface = r.Intn(3)
+			if r.Intn(6) == 0 {
+				// ... or no scope at all: a nil *env.Env (the zero element of a slice of modules, an optional namespace
+				// that was not loaded) is a value like any other, not a module
+				op.Iface = 3
+			}
 		case "EnvFromPath":
 			n := r.Intn(4)
 			for j := 0; j < n; j++ {
@@ -414,6 +419,9 @@ func (r *run) descR(v interface{}, err error) string {
 	case int:
 		return strconv.Itoa(x)
 	case *env.Env:
+		if x == nil {
+			return strconv.Itoa(nilModID)
+		}
 		if m, ok := r.mods[x]; ok {
 			return fmt.Sprintf("module@%p", m)
 		}
@@ -423,6 +431,9 @@ func (r *run) descR(v interface{}, err error) string {
 }
 
 const nilID = -999999
+
+// nilModID: a binding to a nil *env.Env - a plain value, never a namespace
+const nilModID = -999998
 
 func (r *run) descM(v mval, ok bool) string {
 	if !ok {
@@ -534,6 +545,16 @@ func (r *run) step(op Op) (msg string) {
 		r.mods[mod] = mm
 		r.scopes = append(r.scopes, pair{mod, mm})
 	case "Alias":
+		if op.Iface == 3 {
+			err := e.Define(op.Name, (*env.Env)(nil))
+			if s := cmpErr(err, hasDot(op.Name)); s != "" {
+				return s
+			}
+			if err == nil {
+				m.vals[op.Name] = mval{id: nilModID}
+			}
+			break
+		}
 		target := r.scopes[op.Val%len(r.scopes)]
 		var err error
 		switch op.Iface % 3 {
